@@ -1,4 +1,5 @@
 import SeqVerif.Props.C18
+import SeqVerif.Model.C03DocsCache
 /-!
 # C18 under C03: a cache in front of a deterministic loader is the loader
 
@@ -64,6 +65,21 @@ theorem ct_same_key_same_value {cfg : Cfg} {f : Nat → Nat → Nat} {s1 s1' s2 
   obtain ⟨rfl, rfl⟩ := hr1
   obtain ⟨rfl, rfl⟩ := hr2
   rw [e1, e2]
+
+/-- **the doc-block cache of `disk.DocsReader` under concurrency** (`r.cache.GetWithError(uint32(blockOffset), load)`,
+sequential version: `Model/C03DocsCache.lean`): with the loader reading the block at the offset its key stands for, a
+caller that asked cache `c` for the key of block offset `off` below 4 GiB (where the truncated key is the offset) gets
+`load c off` - in every interleaving, next to any other caches sharing the cleaner -/
+theorem ct_docs_block {cfg : Cfg} {load : Nat → Nat → Nat} {s s' : St} {l : Label} {v c off : Nat}
+    (hr : ReachF cfg load s) (hl : LoaderIs load s l) (hs : step cfg s l = some (s', .value v))
+    (hq : requested s l = some (c, SV.C03.docsCacheKey off)) (hoff : off < 4294967296) : v = load c off := by
+  obtain ⟨c', k', hreq, hv⟩ := ct_cache_is_loader hr hl hs
+  rw [hq] at hreq
+  simp only [Option.some.injEq, Prod.mk.injEq] at hreq
+  obtain ⟨rfl, rfl⟩ := hreq
+  rw [hv]
+  unfold SV.C03.docsCacheKey
+  rw [Nat.mod_eq_of_lt hoff]
 
 /-! ## Non-vacuity: the waiter of the interleaving example of Props/C18 receives `f 0 7` -/
 section Example
